@@ -509,6 +509,10 @@ class CommHandler:
         :param dev: Nxscope device instance
         """
         assert self.dev
+        if self.dev.data.chmax == 0:
+            # a device without channels has no channel configuration
+            return
+
         if self.dev.data.div_supported:
             # send div request
             self._nxslib_channels_div()
